@@ -45,6 +45,8 @@ pub struct RunReport {
     pub counters: BTreeMap<String, u64>,
     /// full event log (record mode only)
     pub log: Option<Value>,
+    /// for sweeping properties: a simpler case (serialised) that isolates the failing sub-run
+    pub reduced: Option<Value>,
 }
 
 impl RunReport {
@@ -60,7 +62,7 @@ impl RunReport {
     }
 }
 
-pub trait Prop: Sync {
+pub trait Prop: Copy + Send + Sync + 'static {
     type Case: Serialize + DeserializeOwned + Clone + Send + Sync + 'static;
     fn id(&self) -> &'static str;
     fn level(&self) -> &'static str;
@@ -104,26 +106,45 @@ pub const FORMAT: &str = "ippsim-replay-1";
 const HASH_LABEL: u64 = 0x6861_7368; // "hash"
 
 /// Execute one case on a fresh OS thread whose HashMap keys are a function of `hash_seed` only.
+/// A wall-clock watchdog (default 60 s for a run that takes microseconds to milliseconds) turns a run that never
+/// returns (deadlocked bridge, lost wake-up under a real `block_on`, infinite loop) into a reported violation
+/// instead of a hung check; the stuck thread is abandoned.
 pub fn execute<P: Prop>(prop: &P, hash_seed: u64, case: &P::Case, record: bool) -> RunReport {
-    std::thread::scope(|s| {
-        let h = std::thread::Builder::new()
-            .name("sim-run".into())
-            .stack_size(prop.stack_size())
-            .spawn_scoped(s, move || {
-                hashseed::set_thread_seed(hash_seed);
-                match outcome::guarded(|| prop.run(case, record)) {
-                    Ok(r) => r,
-                    Err(msg) => {
-                        // a panic that escaped the property's own guards is a harness bug, reported as such
-                        let mut r = RunReport::default();
-                        r.violate("harness-panic", msg);
-                        r
-                    }
+    let prop = *prop;
+    let case = case.clone();
+    let (tx, rx) = std::sync::mpsc::channel::<RunReport>();
+    let stack = prop.stack_size();
+    std::thread::Builder::new()
+        .name("sim-run".into())
+        .stack_size(stack)
+        .spawn(move || {
+            hashseed::set_thread_seed(hash_seed);
+            let r = match outcome::guarded(|| prop.run(&case, record)) {
+                Ok(r) => r,
+                Err(msg) => {
+                    // a panic that escaped the property's own guards is a harness bug, reported as such
+                    let mut r = RunReport::default();
+                    r.violate("harness-panic", msg);
+                    r
                 }
-            })
-            .expect("spawn run thread");
-        h.join().expect("run thread join")
-    })
+            };
+            let _ = tx.send(r);
+        })
+        .expect("spawn run thread");
+    let secs = std::env::var("VERIF_WATCHDOG_S").ok().and_then(|v| v.parse().ok()).unwrap_or(60u64);
+    match rx.recv_timeout(std::time::Duration::from_secs(secs)) {
+        Ok(r) => r,
+        Err(std::sync::mpsc::RecvTimeoutError::Timeout) => {
+            let mut r = RunReport::default();
+            r.violate("hang", format!("the run did not return within the {secs} s wall-clock watchdog (deadlock, lost wake-up or infinite loop)"));
+            r
+        }
+        Err(std::sync::mpsc::RecvTimeoutError::Disconnected) => {
+            let mut r = RunReport::default();
+            r.violate("harness-panic", "run thread died without a report".into());
+            r
+        }
+    }
 }
 
 #[derive(Default)]
@@ -480,6 +501,24 @@ pub fn minimise<P: Prop>(prop: &P, env: &Envelope<P::Case>, budget: u64) -> Enve
     };
     let mut best = env.clone();
     let mut steps = 0u64;
+    if class == "hang" || class.starts_with("process-died") {
+        // every re-execution would cost a watchdog period / a process; reported unminimised
+        return best;
+    }
+    // a sweeping property can name the failing sub-run directly
+    let first = execute(prop, best.hash_seed, &best.case, false);
+    if let Some(red) = first.reduced {
+        if let Ok(c) = serde_json::from_value::<P::Case>(red) {
+            steps += 1;
+            let rep = execute(prop, best.hash_seed, &c, false);
+            if let Some(v) = rep.violation {
+                if v.class == class {
+                    best.case = c;
+                    best.violation = Some(v);
+                }
+            }
+        }
+    }
     'outer: loop {
         let cands = prop.shrink(&best.case);
         for c in cands {
